@@ -81,6 +81,59 @@ def advance (c : Cur) : Cur × Adv :=
 def reset (c : Cur) : Cur := { c with rem := c.all }
 end Cur
 
+/-- the calls of the iterator interface -/
+inductive Call where
+  | value | advance | reset
+  deriving Repr, DecidableEq
+
+/-- the same automaton over elements of any type (buffer arguments: strings) -/
+structure LCur (α : Type) where
+  all : List α
+  rem : List α
+
+namespace LCur
+def value {α : Type} (c : LCur α) : Option α := c.rem.head?
+def advance {α : Type} (c : LCur α) : LCur α × Adv :=
+  match c.rem with
+  | [] => (c, .err)
+  | _ :: t => ({ c with rem := t }, if t.isEmpty then .last else .more)
+def reset {α : Type} (c : LCur α) : LCur α := { c with rem := c.all }
+end LCur
+
+/-- text arguments: an element of a text is delimited by reading it (the conversion decides where a number,
+    a word or a key ends), so the protocol speaks about `advance` only after a read of the current element -/
+structure TCur where
+  all : List Rat
+  rem : List Rat
+  read : Bool
+  deriving Repr, DecidableEq
+
+/-- what a call on a text argument reports -/
+inductive TRes where
+  | val (v : Option Rat)
+  | adv (a : Adv)
+  | rst
+  deriving Repr, DecidableEq
+
+namespace TCur
+/-- `none`: no statement (advance over an element that has not been read) -/
+def step (c : TCur) : Call → Option (TCur × TRes)
+  | .value => some ({ c with read := true }, .val c.rem.head?)
+  | .advance =>
+    match c.rem with
+    | [] => some (c, .adv .err)
+    | _ :: t =>
+      if c.read then some ({ c with rem := t, read := false }, .adv (if t.isEmpty then .last else .more)) else none
+  | .reset => some ({ c with rem := c.all, read := false }, .rst)
+
+def run (c : TCur) : List Call → Option (List TRes)
+  | [] => some []
+  | op :: ops =>
+    match c.step op with
+    | none => none
+    | some (c', r) => (run c' ops).map (r :: ·)
+end TCur
+
 /-- the documented loop (examples/iter.c): read the value, advance, stop when advance reports no further
     element (or an error); `fuel` bounds the number of rounds -/
 def walk (value : σ → Option Rat) (advance : σ → σ × Adv) : Nat → σ → List Rat
